@@ -109,13 +109,13 @@ def mutate(p, rng):
                     m["is_global_build_dep"] = True
             elif kind == "download-norule":
                 m["download"] = {"git": {"url": "u", "commit": "c"}, "patches": ["p"]}
-                root["contexts"][0]["rules"] = [r for r in root["contexts"][0].get("rules", []) if not r["name"].startswith("GIT_")]
+                projcheck.default_context(p)["rules"] = [r for r in projcheck.default_context(p).get("rules", []) if not r["name"].startswith("GIT_")]
             elif kind == "export-empty-map":
-                root["contexts"][0].setdefault("rules", [{"name": "CC", "in": "c", "out": "o", "cmd": "cc"}])[0]["export"] = [{}]
+                projcheck.default_context(p).setdefault("rules", [{"name": "CC", "in": "c", "out": "o", "cmd": "cc"}])[0]["export"] = [{}]
             elif kind == "var-cycle":
                 m.setdefault("env", {}).setdefault(rng.choice(["local", "export", "global"]), {})["CFLAGS"] = "${CFLAGS}"
                 if rng.random() < 0.5:
-                    root["contexts"][0].setdefault("env", {})["outfile"] = "${outfile}"
+                    projcheck.default_context(p).setdefault("env", {})["outfile"] = "${outfile}"
     elif kind == "defaults-ctxlist":
         files["laze-project.yml"][0]["defaults"] = {"module": {"context": ["default", "c1"]}}
     elif kind == "cli":
